@@ -23,7 +23,7 @@ def _plate_sample_ids(i, p):
     return Seq(psize(p.term), psids(p.term))
 
 
-CLASS_MODELS["Plate"] = {
+CLASS_MODELS["PlateTok"] = {
     "n_unique_samples": lambda i, p: nus(p.term),
     "sample_ids": _plate_sample_ids,
 }
@@ -61,7 +61,7 @@ def cnt_member(P, m, j):
 
 
 Q = "batchie.policies.k_per_sample.KPerSamplePlatePolicy.filter_eligible_plates"
-T_plates = TSeq(TAObj("Plate"))
+T_plates = TSeq(TAObj("PlateTok"))
 c = contract(Q, params=[("self", TObj("batchie.policies.k_per_sample.KPerSamplePlatePolicy", fields={"k": TInt})),
                         ("batch_plates", T_plates), ("unobserved_plates", T_plates), ("rng", TInt)],
              returns=T_plates)
